@@ -114,7 +114,7 @@ func c24MakeDst(pre []byte, dst string) []byte {
 		}
 		b := append(arr[:0], pre...)
 		b = tls.VerifVarintAppendWithLen(b, v, int64(n(f[2]))) // the earlier, longer encoding
-		return b[:len(pre)]                                     // reset for reuse
+		return b[:len(pre)]                                    // reset for reuse
 	}
 	panic("bad dst " + dst)
 }
